@@ -350,6 +350,9 @@ func (f *file) Read(b []byte) (int, error) {
 	if err := f.m.site("read", f.name); err != nil {
 		return 0, err
 	}
+	if f.off < 0 {
+		return 0, &fs.PathError{Op: "read", Path: f.name, Err: fs.ErrInvalid}
+	}
 	if f.off >= int64(len(f.n.Data)) {
 		return 0, io.EOF
 	}
@@ -361,6 +364,9 @@ func (f *file) ReadAt(b []byte, off int64) (int, error) {
 	if err := f.m.site("read", f.name); err != nil {
 		return 0, err
 	}
+	if off < 0 {
+		return 0, &fs.PathError{Op: "readat", Path: f.name, Err: fs.ErrInvalid}
+	}
 	if off >= int64(len(f.n.Data)) {
 		return 0, io.EOF
 	}
@@ -371,14 +377,22 @@ func (f *file) ReadAt(b []byte, off int64) (int, error) {
 	return n, nil
 }
 func (f *file) Seek(off int64, whence int) (int64, error) {
+	n := f.off
 	switch whence {
 	case io.SeekStart:
-		f.off = off
+		n = off
 	case io.SeekCurrent:
-		f.off += off
+		n += off
 	case io.SeekEnd:
-		f.off = int64(len(f.n.Data)) + off
+		n = int64(len(f.n.Data)) + off
+	default:
+		return 0, &fs.PathError{Op: "seek", Path: f.name, Err: fs.ErrInvalid}
 	}
+	if n < 0 {
+		// like os.File: a negative resulting offset is EINVAL and the offset is unchanged
+		return 0, &fs.PathError{Op: "seek", Path: f.name, Err: fs.ErrInvalid}
+	}
+	f.off = n
 	return f.off, nil
 }
 func (f *file) Close() error { return nil }
